@@ -146,6 +146,36 @@ def main(tier: str) -> int:
                             elif sorted(map(repr, (terms.norm_item(x) for x in b_on))) != sorted(map(repr, (terms.norm_item(x) for x in b_off))):
                                 run.violation({"clause": "statements-affected", **key_i}, "statement iterator: what is read back differs between nsdecl on and off", rp_i)
 
+    # several graphs / datasets written through ONE stream (grouped serialization), each with bindings of its own: every sink's bindings are declared
+    I_ = lambda x: ("iri", x)  # noqa: E731
+    for integ in ("generic", "rdflib"):
+        for quads in (False, True):
+            groups, binds = [], []
+            for k in range(3):
+                st = (I_(f"http://e{k}.example/s"), I_(f"http://e{k}.example/p"), ("lit", f"v{k}", "", ""))
+                groups.append([st + ((I_(f"http://g.example/{k}"),) if quads else ())])
+                binds.append([(f"own{k}", f"http://e{k}.example/"), ("shared", "http://shared.example/ns#")] + ([("üml", "urn:x:")] if k == 2 else []))
+            key = {"universe": "grouped-sinks", "integ": integ, "entry": "grouped_to_file", "sub": "none", "quads": quads}
+            rp = {"groups": groups, "bindings": binds}
+            try:
+                mod = __import__(f"pyjelly.integrations.{integ}.serialize", fromlist=["grouped_stream_to_file"])
+                sinks = [(impl.generic_sink(g, b) if integ == "generic" else impl.rdflib_container(g, b, dataset=quads)) for g, b in zip(groups, binds)]
+                declared = []
+                for sk, b in zip(sinks, binds):
+                    declared += [("ns", a, c) for a, c in b] if integ == "generic" else [("ns", str(a), str(c)) for a, c in sk.namespaces()]
+                import io as _io  # noqa: PLC0415
+                out_ = _io.BytesIO()
+                cfg_g = impl.default_cfg(integ=integ, sclass=("quad" if quads else "triple"), ltype=(4 if quads else 3), nsdecl=True, preset=(64, 16, 4),
+                                         gen=(integ == "generic"), star=(integ == "generic"))
+                mod.grouped_stream_to_file((s_ for s_ in sinks), out_, options=impl.make_options(cfg_g))
+                got = [it for it in impl.parse(integ, out_.getvalue(), "flat") if it[0] == "ns"]
+            except Exception as ex:  # noqa: BLE001
+                run.violation({"clause": "serializer-raised", **key}, f"{type(ex).__name__}: {str(ex)[:120]}", rp)
+                continue
+            if got != declared:
+                missing = [d for d in declared if d not in got]
+                run.violation({"clause": "declarations-differ", **key},
+                              f"{len(declared)} bindings on three sinks written through one stream, the reader received {len(got)}; e.g. missing {missing[:2]}", rp)
     verdicts = tlc.judge(traces)
     jstats = verdicts.pop("__stats__")
     samples = []
